@@ -60,6 +60,11 @@ RowOK(r) ==
                        /\ ((r.got = 1 /\ r.sc.entry # "KeyValidate") => Len(r.pair) >= 2)   \* acceptance rests on the pairing equation
     [] r.op = "sk"  -> IF SkAccepted(r.cls) THEN r.raised = 0 /\ r.ok = 1
                        ELSE r.raised = 1
+    \* one key, one message, one interpreter: the canonical signature, its negation, the identity, a signature on
+    \* another message and under another key, presented in an arbitrary order with repetitions - each call accepts
+    \* exactly the canonical one (C02), whatever was presented before
+    [] r.op = "vseq" -> /\ Len(r.calls) > 0
+                        /\ \A k \in 1..Len(r.calls) : r.calls[k].got = B2N(r.calls[k].kind = "canonical")
     [] r.op = "agg" -> IF Len(r.a) = 0 \/ Len(r.b) = 0 THEN r.raised = 1
                        ELSE r.raised = 0 /\ r.eq = B2N(SigVal(Flat(r.a)) = SigVal(Flat(r.b)))
     [] OTHER -> FALSE
